@@ -92,6 +92,13 @@ class C10(XsProp):
                             ['clone', 'clone', 'use 2', 'compile %s' % hexsrc(bad), 'use 0', '%s %s' % (rng.choice(['eval', 'compile']), hexsrc(bad)),
                              'out', pr, 'dump', 'use 1', pr, 'dump']
                     cs.append(' | '.join(steps))
+        # the run-time clause, both submission styles (marker `limits 4010`): after a source failed at RUN time, a later source submitted by
+        # compile + run must run its own code, exactly like the same source submitted by eval (recorded finding D42: it resumes the failed one)
+        for failing in self.RUNTIME_FAIL[:6] if tier == 'quick' else self.RUNTIME_FAIL:
+            for later in ['5', '1 2 +', ': z 9 ; z']:
+                pre = rng.choice(['7 ', '', '"s" 3 '])
+                cs.append(' | '.join(['xs limits 4010 - -', 'eval %s' % hexsrc(pre + failing + ' 8'), 'clone', 'eval %s' % hexsrc(later), 'stack', 'out',
+                                      'use 1', 'compile %s' % hexsrc(later), 'run', 'stack', 'out']))
         # recorded finding D40: a file named by `require` in a rejected source stays registered as read (file access: implementation only)
         import os
         from . import lib
@@ -132,7 +139,13 @@ class C10(XsProp):
            'with the rest of the source, so a later `require` of the same file does nothing (witness: a file holding `: libw 42 ;`, the '
            'rejected source `require "F" junk`, then `require "F" libw` fails with an unknown word)')
 
+    D42 = ('after a source failed at run time, a later source submitted by compile followed by run resumes the failed program at the '
+           'failing instruction instead of running its own code (eval, which the REPL uses since the repair of D17, starts at its own code) '
+           '(witness: eval `7 1 0 / 8` fails; then compile `5`, run -> the division is executed again and fails with a stack underflow, 5 is never pushed)')
+
     def known(self, text, impl, spec):
+        if 'limits 4010 ' in text:
+            return self.D42
         m = re.search(r'history: (.*)', text)
         if not m:
             return None
@@ -161,6 +174,15 @@ class C10(XsProp):
         for c, o in zip(cases, impl):
             st = c.split(' | ')
             ou = o.split(' | ')
+            if c.startswith('xs limits 4010 '):
+                if len(st) == len(ou) and ou[1] != 'ok' and 'PANIC' not in o:
+                    n += 1
+                    ev = (ou[3], ou[4], ou[5])
+                    cr = (ou[8] if ou[7] == 'ok' else ou[7], ou[9], ou[10])
+                    if ev != cr:
+                        fails.append(('case: %s\nhistory: %s\nlater source by eval: %s\nlater source by compile + run: %s' % (c, ' ;; '.join(src_of(c)), ev, cr),
+                                      'after a source failed at run time, a later source submitted by compile + run does not run its own code'))
+                continue
             if len(st) != len(ou) or 'clone' not in st:
                 continue
             ic = st.index('use 0')
